@@ -212,7 +212,7 @@ theorem fit_joint_optimal_centred_partial (contig : Bool) (C : List (List α)) (
     objective C y w (computeIntercept true y (y.length : α)).1 l1r pen n - objective C y w' b' l1r pen n
       ≤ dualityGap contig C (computeIntercept true y (y.length : α)).2 w
           (residual C (computeIntercept true y (y.length : α)).2 w 0) l1r pen n := by
-  simp only [computeIntercept, if_true, sumS_eq] at *
+  simp only [computeIntercept, if_true, sumS_eq, sumU_eq] at *
   set m := y.sum / (y.length : α) with hm
   set yc := y.map (· - m) with hyc
   have hycl : yc.length = y.length := by simp [hyc]
@@ -257,5 +257,191 @@ theorem fit_intercept_not_joint_witness :
       (0 : ℚ) < objective [[1, 2, 3]] [1, 2, 3] [1 / 7] 2 (1 / 2) 0 3
         - objective [[1, 2, 3]] [1, 2, 3] [1] 0 (1 / 2) 0 3 := by
   decide +kernel
+
+/-! ### the solver loop as modelled: a `break` certifies the returned point
+
+Full statement: for `coordinateDescent contig eps …` with the code's `eps = F::EPSILON`.  Proved with
+`eps = 0` (`_partial`): with `eps > 0` the two `abs_diff_ne!` guards skip the residual update for
+`|w_j| ≤ eps`, so in exact arithmetic the running residual differs from `y − Xw` by up to `eps·‖x_j‖` per
+skipped update and the reported gap is the gap of a slightly different residual (a float-level quirk of the
+code, kept in the model that is run; not a real-arithmetic property). -/
+
+/-- **`coordinate_descent` left by its `break` returns a certified point**: the loop as modelled (all
+sweeps, both stopping tests, any budget) keeps `r = y − Xw`; so if it stops before the budget is used up
+(`n_steps < max_steps`), the reported gap is `< tol·‖y‖²`, is non-negative and bounds `P(w) − P(w')` for every `w'`. -/
+theorem cd_break_certificate_partial (contig : Bool) (C : List (List α)) (y : List α) (n tol : α) (maxSteps : Nat)
+    (l1r pen : α) (w : List α) (g : α) (s : Nat) (hC : ∀ c ∈ C, c.length = y.length)
+    (h0 : 0 ≤ l1r) (h1 : l1r ≤ 1) (hpen : 0 ≤ pen) (hn : 0 ≤ n)
+    (h : coordinateDescent contig 0 C y n tol maxSteps l1r pen = (w, g, s)) (hs : s < maxSteps) :
+    w.length = C.length ∧ g < tol * dotU y y ∧ 0 ≤ g ∧
+      ∀ w', w'.length = C.length → objective C y w 0 l1r pen n - objective C y w' 0 l1r pen n ≤ g := by
+  unfold coordinateDescent at h
+  have key := cdLoop_certificate contig (n * l1r * pen) (n * (1 - l1r) * pen) C (C.map fun c => dotC contig c c) y
+    n tol (tol * dotU y y) l1r pen maxSteps hC maxSteps 0 (List.replicate C.length 0) y (1 + tol) w g s
+    (residual_zero_start C y hC).symm (by simp) h
+  obtain ⟨hw, _, hcert⟩ := key
+  obtain ⟨hg, hlt⟩ := hcert (by omega)
+  refine ⟨hw, hlt, ?_, ?_⟩
+  · rw [hg]; exact gap_nonneg contig C y w l1r pen n hC hw h0 h1 hpen hn
+  · intro w' hw'
+    rw [hg]; exact gap_bounds_suboptimality contig C y w w' l1r pen n hC hw hw' h0 h1 hpen hn
+
+example : objective (α := ℚ) [[1, 2, 3]] [-1, 0, 1] [1 / 7] 0 (1 / 2) 0 3
+      - objective [[1, 2, 3]] [-1, 0, 1] [5] 0 (1 / 2) 0 3 ≤ 0 :=
+  (cd_break_certificate_partial true [[1, 2, 3]] [-1, 0, 1] 3 (1 / 10000) 10 (1 / 2) 0 [1 / 7] 0 2 (by simp)
+    (by norm_num) (by norm_num) (by norm_num) (by norm_num) (by decide +kernel) (by norm_num)).2.2.2 [5] (by simp)
+
+/-- **`fit` without intercept** is `coordinate_descent` on the raw target: same certificate -/
+theorem fit_no_intercept_break_certificate_partial (contig : Bool) (C : List (List α)) (y : List α) (n tol : α)
+    (maxSteps : Nat) (l1r pen b : α) (w : List α) (g : α) (s : Nat) (hC : ∀ c ∈ C, c.length = y.length)
+    (h0 : 0 ≤ l1r) (h1 : l1r ≤ 1) (hpen : 0 ≤ pen) (hn : 0 ≤ n)
+    (h : fitEnet contig 0 C y n tol maxSteps l1r pen false = (b, w, g, s)) (hs : s < maxSteps) :
+    b = 0 ∧ 0 ≤ g ∧ ∀ w', w'.length = C.length →
+      objective C y w b l1r pen n - objective C y w' 0 l1r pen n ≤ g := by
+  simp only [fitEnet, computeIntercept, Bool.false_eq_true, if_false] at h
+  generalize hcd : coordinateDescent contig 0 C y n tol maxSteps l1r pen = res at h
+  obtain ⟨w0, g0, s0⟩ := res
+  simp only [Prod.mk.injEq] at h
+  obtain ⟨rfl, rfl, rfl, rfl⟩ := h
+  have := cd_break_certificate_partial contig C y n tol maxSteps l1r pen w0 g0 s0 hC h0 h1 hpen hn hcd hs
+  exact ⟨rfl, this.2.2.1, this.2.2.2⟩
+
+example : (0 : ℚ) ≤ 0 :=
+  (fit_no_intercept_break_certificate_partial (α := ℚ) true [[1, 2, 3]] [-1, 0, 1] 3 (1 / 10000) 10 (1 / 2) 0 0
+    [1 / 7] 0 2 (by simp) (by norm_num) (by norm_num) (by norm_num) (by norm_num) (by decide +kernel) (by norm_num)).2.1
+
+/-- **`fit` with intercept on centred columns**: left by the `break`, the returned `(w, b)` is within the
+reported gap of every `(w', b')` — the property's "jointly in coefficients and intercept" for the modelled
+`fit`, under the centring hypothesis that the open finding shows to be necessary. -/
+theorem fit_break_joint_centred_partial (contig : Bool) (C : List (List α)) (y : List α) (tol : α)
+    (maxSteps : Nat) (l1r pen b : α) (w : List α) (g : α) (s : Nat) (hC : ∀ c ∈ C, c.length = y.length)
+    (h0 : 0 ≤ l1r) (h1 : l1r ≤ 1) (hpen : 0 ≤ pen) (hy : 0 < y.length) (hcen : ∀ c ∈ C, sumS c = 0)
+    (h : fitEnet contig 0 C y (y.length : α) tol maxSteps l1r pen true = (b, w, g, s)) (hs : s < maxSteps) :
+    0 ≤ g ∧ ∀ w' b', w'.length = C.length →
+      objective C y w b l1r pen (y.length : α) - objective C y w' b' l1r pen (y.length : α) ≤ g := by
+  have hnn : (0 : α) ≤ (y.length : α) := Nat.cast_nonneg _
+  simp only [fitEnet] at h
+  generalize hci : computeIntercept true y (y.length : α) = ci at h
+  obtain ⟨m, yc⟩ := ci
+  simp only [] at h
+  generalize hcd : coordinateDescent contig 0 C yc (y.length : α) tol maxSteps l1r pen = res at h
+  obtain ⟨w0, g0, s0⟩ := res
+  simp only [Prod.mk.injEq] at h
+  obtain ⟨rfl, rfl, rfl, rfl⟩ := h
+  have hycl : yc.length = y.length := by
+    have : yc = (computeIntercept true y (y.length : α)).2 := by rw [hci]
+    rw [this]; simp [computeIntercept]
+  have hC' : ∀ c ∈ C, c.length = yc.length := fun c hc => by rw [hycl]; exact hC c hc
+  have hcert := cd_break_certificate_partial contig C yc (y.length : α) tol maxSteps l1r pen w0 g0 s0 hC' h0 h1 hpen
+    hnn hcd hs
+  obtain ⟨hw, hlt, hg0, _⟩ := hcert
+  have hgap := (cdLoop_certificate contig ((y.length : α) * l1r * pen) ((y.length : α) * (1 - l1r) * pen) C
+    (C.map fun c => dotC contig c c) yc (y.length : α) tol (tol * dotU yc yc) l1r pen maxSteps hC' maxSteps 0
+    (List.replicate C.length 0) yc (1 + tol) w0 g0 s0 (residual_zero_start C yc hC').symm (by simp)
+    (by unfold coordinateDescent at hcd; exact hcd)).2.2 (by omega)
+  refine ⟨hg0, fun w' b' hw' => ?_⟩
+  have hm : m = (computeIntercept true y (y.length : α)).1 := by rw [hci]
+  have hyc : yc = (computeIntercept true y (y.length : α)).2 := by rw [hci]
+  rw [hgap.1, hm, hyc]
+  exact fit_joint_optimal_centred_partial contig C y w0 w' b' l1r pen (y.length : α) hC hw hw' h0 h1 hpen hnn hy hcen
+
+example : (0 : ℚ) ≤ 0 :=
+  (fit_break_joint_centred_partial (α := ℚ) true [[-1, 0, 1]] [1, 2, 6] (1 / 10000) 10 (1 / 2) 0 3 [5 / 2] 0 2
+    (by simp) (by norm_num) (by norm_num) (by norm_num) (by simp) (by simp [sumS]) (by decide +kernel) (by norm_num)).1
+
+/-! ### the glue: constructors and `ParamGuard` -/
+
+theorem check_ok_iff_guards (p q : EnetParams α) :
+    p.check = .ok q ↔ (q = p ∧ 0 ≤ p.penalty ∧ 0 ≤ p.l1Ratio ∧ p.l1Ratio ≤ 1 ∧ 0 ≤ p.tolerance) := by
+  unfold EnetParams.check
+  constructor
+  · intro h
+    split_ifs at h with h1 h2 h3
+    · have := Except.ok.inj h
+      exact ⟨this.symm, le_of_not_gt h1, h2.1, h2.2, le_of_not_gt h3⟩
+  · rintro ⟨rfl, h1, h2, h3, h4⟩
+    rw [if_neg (not_lt.mpr h1), if_neg (not_not.mpr ⟨h2, h3⟩), if_neg (not_lt.mpr h4)]
+
+theorem ridge_is_new_with_ratio_zero (tol0 : α) :
+    (EnetParams.ridge tol0).l1Ratio = 0 ∧ (EnetParams.lasso tol0).l1Ratio = 1 ∧
+    (EnetParams.new tol0).l1Ratio = 1 / 2 ∧
+    (EnetParams.ridge tol0).penalty = 1 ∧ (EnetParams.lasso tol0).penalty = 1 ∧
+    (EnetParams.ridge tol0).withIntercept = true ∧ (EnetParams.lasso tol0).withIntercept = true := by
+  simp [EnetParams.ridge, EnetParams.lasso, EnetParams.new, half_eq]
+
+theorem objective_ridge (C : List (List α)) (y w : List α) (b pen n : α) :
+    objective C y w b 0 pen n
+      = 1 / 2 * dotS (residual C y w b) (residual C y w b) + 1 / 2 * (pen * n) * dotS w w := by
+  simp [objective, penaltyTerm, half_eq]
+
+theorem objective_lasso (C : List (List α)) (y w : List α) (b pen n : α) :
+    objective C y w b 1 pen n
+      = 1 / 2 * dotS (residual C y w b) (residual C y w b) + pen * n * normL1 w := by
+  simp [objective, penaltyTerm, half_eq]
+
+example : (EnetParams.ridge (1 / 10000 : ℚ)).check = .ok (EnetParams.ridge (1 / 10000 : ℚ)) :=
+  (check_ok_iff_guards _ _).mpr ⟨rfl, by norm_num [EnetParams.ridge, EnetParams.new],
+    by norm_num [EnetParams.ridge, EnetParams.new], by norm_num [EnetParams.ridge, EnetParams.new],
+    by norm_num [EnetParams.ridge, EnetParams.new]⟩
+
+/-- a fit through the unchecked parameter set runs the solver only inside the guards the certificate
+theorems assume (`0 ≤ l1_ratio ≤ 1`, `penalty ≥ 0`) -/
+theorem fitParams_ok_guards (contig : Bool) (eps : α) (C : List (List α)) (y : List α) (n : α) (p : EnetParams α)
+    (res : α × List α × α × Nat) (h : fitParams contig eps C y n p = .ok res) :
+    0 ≤ p.penalty ∧ 0 ≤ p.l1Ratio ∧ p.l1Ratio ≤ 1 ∧
+      res = fitEnet contig eps C y n p.tolerance p.maxIterations p.l1Ratio p.penalty p.withIntercept := by
+  unfold fitParams at h
+  split at h
+  · simp at h
+  · rename_i q hq
+    obtain ⟨rfl, hp, hl0, hl1, _⟩ := (check_ok_iff_guards p q).mp hq
+    exact ⟨hp, hl0, hl1, (Except.ok.inj h).symm⟩
+
+example : fitParams (α := ℚ) true 0 [[1, 2, 3]] [1, 2, 3] 3 (EnetParams.lasso (1 / 10000))
+    = .ok (fitEnet true 0 [[1, 2, 3]] [1, 2, 3] 3 (1 / 10000) 1000 1 1 true) := by
+  unfold fitParams
+  rw [(check_ok_iff_guards (EnetParams.lasso (1 / 10000 : ℚ)) (EnetParams.lasso (1 / 10000))).mpr
+    ⟨rfl, by norm_num [EnetParams.lasso, EnetParams.new],
+    by norm_num [EnetParams.lasso, EnetParams.new], by norm_num [EnetParams.lasso, EnetParams.new],
+    by norm_num [EnetParams.lasso, EnetParams.new]⟩]
+  rfl
+
+/-! ### multi-task: the group threshold -/
+
+section mtl
+variable [Transc α]
+
+/-- **a feature row under the group threshold is exactly zero**: `‖x‖₂ ≤ thr` makes
+`block_soft_thresholding` return the zero vector (whatever `sqrt` is) -/
+theorem blockSoft_zero_below_threshold (x : List α) (thr : α) (h : norm2U x ≤ thr) :
+    blockSoft x thr = List.replicate x.length 0 := by
+  unfold blockSoft
+  simp [h]
+
+/-- the same inside the loop body of `block_coordinate_descent`: after `bcdCoord` on a feature that is not
+skipped, row `j` of `W` is exactly zero whenever the correlation of the feature with the partial residual
+has norm at most `n·ρ·pen` -/
+theorem bcdCoord_zero_below_threshold (contig : Bool) (t : Nat) (eps thr denAdd : α) (st : BcdState α) (j : Nat)
+    (cj : List α) (nrm : α) (hj : j < st.w.length) (hn : ¬ absS nrm ≤ eps)
+    (h : norm2U ((colsOf t (if absS (norm2U (st.w.getD j [])) ≤ eps then st.r
+        else rankOne false cj (st.w.getD j []) st.r)).map fun rc => dotC (contig && t == 1) rc cj) ≤ thr) :
+    (bcdCoord contig t eps thr denAdd st j cj nrm).w.getD j [] = List.replicate t 0 := by
+  unfold bcdCoord
+  rw [if_neg hn]
+  simp only []
+  rw [blockSoft_zero_below_threshold _ _ h]
+  simp [hj, colsOf]
+
+end mtl
+
+local instance ratTransc : Transc ℚ := ⟨id, id, id⟩
+
+example : blockSoft (α := ℚ) [0, 0] 1 = [0, 0] :=
+  blockSoft_zero_below_threshold _ _ (by simp [norm2U, dotU, sumU, sumU8, Transc.sqrt])
+
+example : (bcdCoord (α := ℚ) false 2 0 10 0 { w := [[1, 1]], r := [[0, 0], [0, 0]], wMax := 0, dwMax := 0 } 0 [1, 1] 2).w.getD 0 []
+    = [0, 0] :=
+  bcdCoord_zero_below_threshold false 2 0 10 0 _ 0 [1, 1] 2 (by simp) (by norm_num [absS])
+    (by norm_num [norm2U, dotU, sumU, sumU8, colsOf, rankOne, absS, Transc.sqrt, dotC, dotS, sumS, List.range, List.range.loop])
 
 end LinfaSpec.Props.C11
